@@ -270,6 +270,65 @@ class Ref:
                 return np.maximum(ay, 1.0)
         return ay
 
+    def fmag(self, x, y):
+        """absolute rounding error of a careful float64 evaluation of forward(x),
+        in units of eps (used to decide whether a finite-difference stencil can
+        be trusted; depends on forward's formula only)"""
+        nm, p = self.name, self.p
+        x = np.asarray(x, dtype=float)
+        ay = np.abs(np.asarray(y, dtype=float))
+        with np.errstate(all="ignore"):
+            if nm == "Logit":
+                v = (x - self.lower) / self.delta
+                mx = np.maximum(np.abs(x), abs(self.lower))
+                return ay + 1.0 / v + 1.0 / (1 - v) + mx / (self.delta * v * (1 - v))
+            if nm == "Log":
+                z = x + p["nu"]
+                return ay + np.maximum(np.abs(x), p["nu"]) / (z * abs(self.bf))
+            if nm in ("BoxCox2", "BoxCox1lam", "BoxCox1nu", "BoxCox2sym"):
+                nu, lam = p["nu"], p["lam"]
+                xa = np.abs(x) if nm == "BoxCox2sym" else x
+                z = xa + nu
+                zl = np.exp(lam * np.log(z))
+                m = ay + zl * (np.maximum(np.abs(xa), nu) / z + np.abs(np.log(z)))
+                if nm == "BoxCox2sym":
+                    y0 = abs(math.expm1(lam * math.log(nu)) / lam) if abs(lam) > EPSB \
+                        else abs(math.log(nu))
+                    m = m + 2 * y0 + nu ** lam * (1 + abs(math.log(nu)))
+                return m
+            if nm == "YeoJohnson":
+                nu, sc, lam = p["nu"], p["scale"], p["lam"]
+                w = nu + x * sc
+                mw = np.maximum(abs(nu), np.abs(x * sc))
+                aw = np.abs(w)
+                pos = w >= EPSB
+                lp = np.where(pos, lam, 2 - lam)
+                close = np.where(pos, abs(lam) <= 1e-8, abs(lam - 2) <= 2.0001e-5)
+                pw = np.exp(lp * np.log1p(aw))
+                m_pow = np.maximum(pw, 1.0) / np.maximum(np.abs(lp), 1e-300) + \
+                    pw / (1 + aw) * mw
+                m_log = 1.0 + mw / (1 + aw)
+                return ay + np.where(close, m_log, m_pow)
+            if nm == "Reciprocal":
+                z = x + p["nu"]
+                return ay + np.maximum(np.abs(x), p["nu"]) / z ** 2
+            if nm == "Sinh":
+                u = (x - p["nu"]) * p["scale"]
+                return ay + np.maximum(np.abs(x), abs(p["nu"])) * p["scale"] / \
+                    np.sqrt(1 + u * u)
+            if nm == "LogSinh":
+                w = self.a + self.b * x / p["xmax"]
+                e = -np.expm1(-2 * w)
+                return (np.abs(w) + np.abs(np.log(e / 2)) + 1.0 / e +
+                        np.maximum(self.a, self.b * np.abs(x) / p["xmax"]) /
+                        np.tanh(w)) / self.b
+            if nm == "Manly":
+                lam = p["lam"]
+                if abs(lam) > EPSB:
+                    return ay + np.maximum(np.exp(lam * x / p["xmax"]), 1.0) / abs(lam)
+                return ay
+        return ay
+
     def branch_distance(self, x):
         """distance (in x units) to the nearest singularity / branch switch"""
         nm, p = self.name, self.p
@@ -279,7 +338,8 @@ class Ref:
         if nm == "BoxCox2sym":
             return np.abs(x)
         if nm == "Logit":
-            return np.minimum(x - self.lower, self.lower + self.delta - x)
+            # the Jacobian is only defined EPS inside the bounds
+            return np.minimum(x - self.lower, self.lower + self.delta - x) - EPSB
         if nm == "YeoJohnson":
             w = p["nu"] + x * p["scale"]
             return np.abs(w - EPSB) / p["scale"]
